@@ -351,4 +351,4 @@ def main(run):
         "selection rule taken from the expand() docstring: under pre_expand a template is expanded iff it exists, is not in templates_to_not_expand and is flagged need_pre_expand or in templates_to_expand; without pre_expand everything is expanded",
         "expand_invoke: a dedicated slice (5 pages with #invoke in bodies / arguments / siblings x switch x pre_expand x hook x repeated calls) with hand-written expectations",
     ]
-    return run.finish(cov, assumptions, replay_fn=None)
+    return run.finish(cov, assumptions, replay_fn=replay)
